@@ -230,6 +230,17 @@ func (c *Ctx) runTop() {
 	fr.run(st)
 	c.exitChecks(fr, ct)
 	if ct != nil && !c.scan {
+		for n := range ct.LoopInv {
+			found := false
+			for _, li := range fr.loops {
+				if li.ord == n {
+					found = true
+				}
+			}
+			if !found {
+				c.unsupported("loop %d invariant: %s has no loop %d", n, ct.Func, n)
+			}
+		}
 		for name := range ct.AtCalls {
 			if c.atCallSeen[name] == 0 {
 				c.unsupported("at call %s: no such call in %s", name, ct.Func)
